@@ -1,6 +1,7 @@
 import EupsModel.Lemmas.SetupFrame
 import EupsModel.Lemmas.SetupPresent
 import EupsModel.Lemmas.SetupClear
+import EupsModel.Lemmas.SetupLines
 /-! C01 — setup yields a consistent environment with no residue of superseded versions.
 Model: `EupsModel/Model/Setup.lean`; lemmas: `EupsModel/Lemmas/Setup*.lean`.
 
@@ -77,8 +78,11 @@ theorem C01_envOK_preserved_partial (db : Db) (rank : Name → Nat) (hdag : Name
 
 /-! ## clause 4: an explicitly named version is the one set up -/
 
-theorem C01_explicit_version_partial (db : Db) (rank : Name → Nat) (hdag : NameDag db rank) (fuel : Nat)
-    (r : Request) (v : VStr) (hv : r.version = some (.explicit v)) (e : Setup.Env) (s' : St)
+/-- Clause 4, under the weakest static form of the property's own proviso: the requested *name* is not reachable from
+itself through dependency lines (`NoSelfReach` — nothing is assumed about the rest of the database; `NameDag` implies it
+for every name: `noSelfReach_of_nameDag`).  Without it the statement is false: `C01_explicit_version_self_witness`. -/
+theorem C01_explicit_version_partial (db : Db) (fuel : Nat) (r : Request) (hself : NoSelfReach db r.name)
+    (v : VStr) (hv : r.version = some (.explicit v)) (e : Setup.Env) (s' : St)
     (h : runSetup db fuel r e = .ok s') : ∃ k, s'.env.rec? r.name = some (v, k) := by
   unfold runSetup at h
   cases fuel with
@@ -97,11 +101,17 @@ theorem C01_explicit_version_partial (db : Db) (rank : Name → Nat) (hdag : Nam
       rw [hpd] at h
       rw [hv] at hres
       have hver := resolve_explicit _ _ _ _ _ _ _ _ _ _ _ hres
-      have := install_top_record (r.cfg db) rank hdag (setup (r.cfg db) k) (setup_recOK (r.cfg db) rank hdag k)
-        false r.vro d reason hc _ s' (register_already (r.cfg db) 0 d reason
+      have := install_top_record_noSelf (r.cfg db) k false r.vro d reason hc (by rw [hname]; exact hself) _ s'
+        (register_already (r.cfg db) 0 d reason
           ((St.init e).afterResolve (r.cfg db) 0 r.vro r.name r.version none) ha0 hc) h
       refine ⟨d.ver.2, ?_⟩
       rw [← hname, ← hver]; exact this
+
+/-- the `NameDag` form of clause 4 (as stated in the earlier rounds) is a corollary -/
+theorem C01_explicit_version_nameDag (db : Db) (rank : Name → Nat) (hdag : NameDag db rank) (fuel : Nat)
+    (r : Request) (v : VStr) (hv : r.version = some (.explicit v)) (e : Setup.Env) (s' : St)
+    (h : runSetup db fuel r e = .ok s') : ∃ k, s'.env.rec? r.name = some (v, k) :=
+  C01_explicit_version_partial db fuel r (noSelfReach_of_nameDag db rank hdag r.name) v hv e s' h
 
 /-! ## D17: the full statement is false when a product name is reachable from one of its own versions -/
 
@@ -138,6 +148,29 @@ theorem C01_nested_switch_witness :
       some ⟨[(nA, v2), (nTop, v1)], [(nA, .own (nA, v2) []), (nTop, .own (nTop, v1) [])],
             [(PATH, [.own (nA, v1) [2], .own (nA, v2) [1]])], [(ALATE, .own (nA, v1) [])]⟩ := by
   decide +kernel
+
+def tagBeta : Str := [98]
+
+/-- `a 1`: `setupRequired(b)`; `b 1`: `setupRequired(a -t beta)`; `beta` names `a 2` (a line's own `-t` tag outranks the
+version given on the command line) -/
+def dbSelf : Db :=
+  { decls := [⟨nA, v1, [2], [(.always, .dep nB false false none none [] false)]⟩,
+              ⟨nB, v1, [3], [(.always, .dep nA false false none none [tagBeta] false)]⟩,
+              ⟨nA, v2, [4], []⟩],
+    tags := [(tagCurrent, nA, v1), (tagCurrent, nB, v1), (tagBeta, nA, v2)] }
+
+/-- `NoSelfReach` cannot be dropped from clause 4: in `dbSelf` the name `a` reaches itself (`a 1 → b → a`); from the empty
+environment `setup a 1` succeeds and ends with `SETUP_A = a 2` and nothing else set up (D17's class seen from clause 4). -/
+theorem C01_explicit_version_self_witness :
+    Within dbSelf nA 2 nA ∧
+    (envOf (runSetup dbSelf 20 ⟨nA, some (.explicit v1.1), false, none, false, [], [0]⟩ Setup.Env.empty)).map
+      (fun e => e.recs) = some [(nA, v2)] := by
+  refine ⟨?_, by decide +kernel⟩
+  have h1 : Within dbSelf nA 1 nB :=
+    Within.step (d := ⟨nA, v1, [2], [(.always, .dep nB false false none none [] false)]⟩) (g := .always)
+      (o := false) (j := false) (v := none) (x := none) (t := []) (kl := false) Within.root (by simp [dbSelf]) rfl (by simp)
+  exact Within.step (d := ⟨nB, v1, [3], [(.always, .dep nA false false none none [tagBeta] false)]⟩) (g := .always)
+    (o := false) (j := false) (v := none) (x := none) (t := [tagBeta]) (kl := false) h1 (by simp [dbSelf]) rfl (by simp)
 
 /-! ## D34: an environment produced under one setup type is not `WellOwned` for a request of the other type -/
 
@@ -226,10 +259,28 @@ theorem C01_closure_sound (db : Db) (fuel : Nat) (r : Request) (e : Setup.Env) (
   rw [hsame.record, hclean m] at hm
   cases hm
 
+/-- the "exact closure" half for every prior environment: whatever was set up before, a product that is set up after a
+successful request either was set up before in that very version, or is reachable from the requested product through
+dependency lines — nothing outside the closure is *newly* set up or switched.  Every database, flag, fuel. -/
+theorem C01_closure_sound_populated (db : Db) (fuel : Nat) (r : Request) (e : Setup.Env) (s' : St)
+    (h : runSetup db fuel r e = .ok s') :
+    ∀ m v, s'.env.rec? m = some v → e.rec? m = some v ∨ ∃ k, Within db r.name k m := by
+  intro m v hm
+  by_cases hno : ∃ k, Within db r.name k m
+  · exact Or.inr hno
+  · left
+    have hsame := setup_subjInv (r.cfg db) (fun _ n => ∃ k, Within db r.name k n) (SameFor m e)
+      (within_closedAt_unbounded (r.cfg db) r.name)
+      (sameFor_subjInv (r.cfg db) _ m (fun _ h => hno h) e) fuel true 0 false r.vro r.name r.version none (St.init e) s'
+      ⟨0, Within.root⟩ (by intro n d x h; simp [St.init, aget] at h) (SameFor.refl m e) h
+    rw [← hsame.record]; exact hm
+
 /-- the requested product is set up in the version the resolution order designates for the request (resolution run on
-an empty `alreadySetupProducts`, as the top-level call does) — under `NameDag` -/
-theorem C01_requested_version_partial (db : Db) (rank : Name → Nat) (hdag : NameDag db rank) (fuel : Nat)
-    (r : Request) (e : Setup.Env) (s' : St) (h : runSetup db fuel r e = .ok s') :
+an empty `alreadySetupProducts`, as the top-level call does) — provided the requested name is not reachable from itself
+(`NoSelfReach`: the weakest static form of "not requested in two versions along the traversal" for the requested
+product; the rest of the database is arbitrary) -/
+theorem C01_requested_version_partial (db : Db) (fuel : Nat) (r : Request) (hself : NoSelfReach db r.name)
+    (e : Setup.Env) (s' : St) (h : runSetup db fuel r e = .ok s') :
     ∃ d reason, resolve db r.path r.keep [] r.name r.version none 0 r.vro.length r.vro = .found d reason ∧
       s'.env.rec? r.name = some d.ver := by
   unfold runSetup at h
@@ -247,8 +298,8 @@ theorem C01_requested_version_partial (db : Db) (rank : Name → Nat) (hdag : Na
       simp only at h
       have hpd : pickDecl (r.cfg db).db (St.init e).cache d = d := rfl
       rw [hpd] at h
-      have := install_top_record (r.cfg db) rank hdag (setup (r.cfg db) k) (setup_recOK (r.cfg db) rank hdag k)
-        false r.vro d reason hc _ s' (register_already (r.cfg db) 0 d reason
+      have := install_top_record_noSelf (r.cfg db) k false r.vro d reason hc (by rw [hname]; exact hself) _ s'
+        (register_already (r.cfg db) 0 d reason
           ((St.init e).afterResolve (r.cfg db) 0 r.vro r.name r.version none) ha0 hc) h
       exact ⟨d, reason, hres, by rw [← hname]; exact this⟩
 
